@@ -716,6 +716,8 @@ def run(case):
         except Exception as exc:  # noqa
             return err(exc)
         out = ["ok", snap(r), ["grid"] + op_grid(build(case[1]), r, op)]
+        if r is not e:
+            return out + [["followup", "the-editing-method-returned-another-object-than-its-receiver"]]
         return out + followup(r)
     if k == "of_points":
         pts = []
